@@ -146,7 +146,9 @@ Definition ecount (a : ext) (s n : Z) : Z :=
   match a with Fin x => Z.min n (Z.max 0 (x - s)) | Inf => n end.
 
 Section Spec.
-Context (A : Alg) (db : database) (v : variant).
+(* lb: the handle's MPLEX look-back setting (gd_mplex_lookback): < 0 = GD_LOOKBACK_ALL,
+   0 = none, k > 0 = k cycles *)
+Context (A : Alg) (db : database) (v : variant) (lb : Z).
 
 Fixpoint spf (f : field) : Z :=
   match f with
@@ -172,41 +174,58 @@ Fixpoint eof (f : field) : ext :=
   end.
 
 (* MPLEX (dirfile-format(5)):  out[n] = (index[m(n)] == count) ? in[n] : out[n-1];
-   before the first match: zero / NaN (gd_getdata(3)) *)
+   before the first match: zero / NaN.  gd_getdata(3): the search for the start
+   value goes back a limited number of cycles from the first sample of the read
+   (gd_mplex_lookback(3)); if it is not found there the samples are zero/NaN "up to
+   the next available sample".  The value of a sample therefore depends on where
+   the read started: `lo` below is the first sample considered. *)
 Fixpoint mplex_nat (fv : Z -> V A) (gm : Z -> bool) (padv : V A) (j : nat) : V A :=
   if gm (Z.of_nat j) then fv (Z.of_nat j)
   else match j with O => padv | S j' => mplex_nat fv gm padv j' end.
 Definition mplex_at (fv : Z -> V A) (gm : Z -> bool) (padv : V A) (k : Z) : V A :=
   if k <? 0 then (if gm k then fv k else padv) else mplex_nat fv gm padv (Z.to_nat k).
+Definition mplex_from (lo : Z) (fv : Z -> V A) (gm : Z -> bool) (padv : V A) (k : Z) : V A :=
+  mplex_at (fun i => fv (lo + i)) (fun i => gm (lo + i)) padv (k - lo).
 
-(* the value of sample k of field f as return type rt: the documented formula,
-   the second input sampled at floor(k*s2/s1) *)
-Fixpoint spec_val (rt : ctype) (f : field) (k : Z) : V A :=
+(* one look-back cycle: the period, or max(2*count_val+1, GD_MPLEX_CYCLE = 10) *)
+Definition mplex_cycle (cnt per : Z) : Z := if per =? 0 then Z.max (2 * cnt + 1) 10 else per.
+(* first index sample considered for a read whose index window starts at q *)
+Definition mplex_lo (cnt per q : Z) : Z :=
+  if lb <? 0 then 0 else Z.max 0 (q - lb * mplex_cycle cnt per).
+
+(* the value of sample k of field f as return type rt in a read that started at
+   sample s (s only matters below an MPLEX with a finite look-back): the documented
+   formula, the second input sampled at floor(k*s2/s1) *)
+Fixpoint spec_val (rt : ctype) (f : field) (s k : Z) : V A :=
   match f with
   | Raw id =>
       let r := db id in
       if k <? raw_start r then pad A rt
       else dec A rt (r_ty r) (nthZ (r_data r) (k - raw_start r) 0)
   | Index => index_val A rt k
-  | Phase g sh => spec_val rt g (k + sh)
-  | Un o g => ukern A o rt (spec_val (u_in o rt) g k)
-  | Bin o g h => bkern A o rt (spec_val rt g k) (spec_val (b_in2 o) h (k * spf h / spf g))
-  | Tri o g h l => tkern A o rt (spec_val rt g k) (spec_val F64 h (k * spf h / spf g))
-                         (spec_val F64 l (k * spf l / spf g))
-  | Mplex g h cnt _ =>
-      mplex_at (spec_val rt g)
-               (fun j => mplex_match A cnt (spec_val I32 h (j * spf h / spf g)))
-               (pad A rt) k
+  | Phase g sh => spec_val rt g (s + sh) (k + sh)
+  | Un o g => ukern A o rt (spec_val (u_in o rt) g s k)
+  | Bin o g h => bkern A o rt (spec_val rt g s k)
+                       (spec_val (b_in2 o) h (s * spf h / spf g) (k * spf h / spf g))
+  | Tri o g h l => tkern A o rt (spec_val rt g s k)
+                         (spec_val F64 h (s * spf h / spf g) (k * spf h / spf g))
+                         (spec_val F64 l (s * spf l / spf g) (k * spf l / spf g))
+  | Mplex g h cnt per =>
+      let q := s * spf h / spf g in
+      mplex_from (cdiv (mplex_lo cnt per q * spf g) (spf h))
+                 (spec_val rt g s)
+                 (fun j => mplex_match A cnt (spec_val I32 h q (j * spf h / spf g)))
+                 (pad A rt) k
   end.
 
-Definition spec_eval (rt : ctype) (f : field) (k : Z) : option (V A) :=
-  if eltb k (eof f) then Some (spec_val rt f k) else None.
+Definition spec_eval (rt : ctype) (f : field) (s k : Z) : option (V A) :=
+  if eltb k (eof f) then Some (spec_val rt f s k) else None.
 
 Definition spec_count (f : field) (s n : Z) : Z := ecount (eof f) s n.
 
 (* what gd_getdata(f, first sample s, n samples, return type rt) must return *)
 Definition spec_window (rt : ctype) (f : field) (s n : Z) : list (V A) :=
-  map (spec_val rt f) (zrange s (spec_count f s n)).
+  map (spec_val rt f s) (zrange s (spec_count f s n)).
 
 (* ---- well-formedness -------------------------------------------------- *)
 Fixpoint wf (f : field) : Prop :=
@@ -214,7 +233,8 @@ Fixpoint wf (f : field) : Prop :=
   | Raw id => 1 <= r_spf (db id) /\ 0 <= r_fo (db id)
   | Index => True
   | Phase g _ | Un _ g => wf g
-  | Bin _ g h | Mplex g h _ _ => wf g /\ wf h
+  | Bin _ g h => wf g /\ wf h
+  | Mplex g h _ per => wf g /\ wf h /\ 0 <= per          (* "period may not be negative" *)
   | Tri _ g h l => wf g /\ wf h /\ wf l
   end.
 
@@ -223,8 +243,18 @@ Fixpoint wfb (f : field) : bool :=
   | Raw id => (1 <=? r_spf (db id)) && (0 <=? r_fo (db id))
   | Index => true
   | Phase g _ | Un _ g => wfb g
-  | Bin _ g h | Mplex g h _ _ => wfb g && wfb h
+  | Bin _ g h => wfb g && wfb h
+  | Mplex g h _ per => wfb g && wfb h && (0 <=? per)
   | Tri _ g h l => wfb g && wfb h && wfb l
+  end.
+
+Fixpoint mplexfreeb (f : field) : bool :=
+  match f with
+  | Raw _ | Index => true
+  | Phase g _ | Un _ g => mplexfreeb g
+  | Bin _ g h => mplexfreeb g && mplexfreeb h
+  | Tri _ g h l => mplexfreeb g && mplexfreeb h && mplexfreeb l
+  | Mplex _ _ _ _ => false
   end.
 
 (* ---- the proved region ------------------------------------------------ *)
@@ -235,6 +265,7 @@ Inductive tag :=
 | TMplexRate     (* MPLEX with different rates *)
 | TMplexNeg      (* MPLEX reached at a negative sample (implementation dependent) *)
 | TAllocZero     (* a zero-length buffer is requested from _GD_Alloc: LINTERP/INDIR read with n = 0, third LINCOM input after the second ended the field *)
+| TMplexNested   (* MPLEX over an MPLEX with a finite look-back: the inner start value depends on which of the outer reads asks (implementation dependent) *)
 | TMplexSeek.    (* MPLEX: re-positioning the inputs after the look-back reaches a negative offset *)
 
 Definition divides (a b : Z) : bool := b mod a =? 0.
@@ -277,20 +308,22 @@ Fixpoint uncovered (rt : ctype) (f : field) (s n : Z) : list tag :=
        (if n1 <=? 0 then [] else
         tag_if (negb (v_align v) && negb (divides s1 (s * s3))) TUnaligned ++
         uncovered F64 l (s * s3 / s1) (cdiv (arem s s1 s3 + n1 * s3) s1)))
-  | Mplex g h cnt _ =>
+  | Mplex g h cnt per =>
       let s1 := spf g in let s2 := spf h in
       let c1 := spec_count g s n in
       uncovered rt g s n ++
       (if c1 <=? 0 then [] else
        tag_if (negb (s1 =? s2)) TMplexRate ++
        tag_if (s <? 0) TMplexNeg ++
+       tag_if (negb ((lb <? 0) || (mplexfreeb g && mplexfreeb h))) TMplexNested ++
        tag_if (negb (seek_ok g (s + c1) &&
                      seek_ok h (s * s2 / s1 + spec_count h (s * s2 / s1) (cdiv (arem s s1 s2 + c1 * s2) s1)))) TMplexSeek ++
        uncovered I32 h (s * s2 / s1) (cdiv (arem s s1 s2 + c1 * s2) s1) ++
        (* the look-back reads the index over [0,s) and one sample of the input *)
-       (if 0 <? s * s2 / s1 then
-          uncovered I32 h 0 (s * s2 / s1) ++
-          concat (map (fun j => uncovered rt g (j * s1 / s2) 1) (zrange 0 (s * s2 / s1)))
+       (let lo := mplex_lo cnt per (s * s2 / s1) in
+        if lo <? s * s2 / s1 then
+          uncovered I32 h lo (s * s2 / s1 - lo) ++
+          concat (map (fun j => uncovered rt g (j * s1 / s2) 1) (zrange lo (s * s2 / s1 - lo)))
         else []))
   end.
 
